@@ -309,12 +309,12 @@ func c13Run(t *rapid.T) {
 				continue
 			}
 		}
-		p := genProgram(t, genOpts{probes: true, mapRegions: true, pureMapBody: true, sideEffects: true, failing: true, failPct: 20, probePct: 20, maxPieces: 5, brokenPct: brokenPct, brokenKinds: brokenKinds})
+		p := genProgram(t, genOpts{probes: true, mapRegions: true, pureMapBody: true, sideEffects: true, failing: true, failPct: 20, probePct: 20, maxPieces: 5, brokenPct: brokenPct, brokenKinds: brokenKinds, litModePct: 15})
 		progs = append(progs, c13Prog{p: p, text: p.Main})
 	}
 	// partial names are unique per program because fresh() counters restart:
 	// give every program its own feeder namespace through its own Runtime.
-	nvar := rapid.IntRange(1, 3).Draw(t, "nvariants")
+	nvar := 1 + uni(t, "nvariants", 3)
 
 	newRT := func(i, j int) *Runtime {
 		rt := newRuntime(progs[i].p, true)
@@ -465,14 +465,15 @@ func c13Run(t *rapid.T) {
 			}
 			track(tm, i, "Parse")
 			n := rapid.IntRange(1, 3).Draw(t, "nexec")
-			if uni(t, "hot", 12) == 0 {
+			if hotP := 12; uni(t, "hot", hotP) == 0 || (progs[i].p.Features["mostly_literal_program"]+progs[i].p.Features["text_only_program"] > 0 && uni(t, "hotlit", 2) == 0) {
 				n = []int{5, 12, 110}[uni(t, "hotn", 3)] // a "hot" template
 				count("c13_hot_templates", 1)
 			}
 			for x := 0; x < n; x++ {
-				rt := newRT(i, j)
+				jj := (j + x) % nvar // a hot template sees different data from execution to execution
+				rt := newRT(i, jj)
 				out, err := safeExec(tm, plush.NewContextWith(rt.contextData()))
-				compare(i, j, "Parse+Exec", out, err, rt)
+				compare(i, jj, "Parse+Exec", out, err, rt)
 			}
 		case 8:
 			hist = append(hist, fmt.Sprintf("NewTemplate(prog %d).Exec(data %d)", i, j))
